@@ -36,7 +36,7 @@ META = {
     'trusted_base': ['txsa/spec.py header tables', 'txsa.sym interpreter',
                      'CPython ast'],
     'assumptions': ['the body codec is covered by C01/C02'],
-    'decided': ['D1 header-field tables', 'D2 header-field typing',
+    'decided': ['D1 header-field tables (incl. never changed in place at run time, not even through a local alias)', 'D2 header-field typing',
                 'D3 writer/reader slot coverage (flags for every value of the '
                 'flags byte, serial, fields; an unknown field code skips that '
                 'field only)',
@@ -150,6 +150,11 @@ def run(ctx):
         done = header_typing_unrolled(ctx, c, mfi)
         marshal_rules(ctx, c, mfi, paths, selft, skip_typing=done)
     reader_rules(ctx, classes, hcode_is_mapping)
+    from .c09 import per_instance_registries
+    per_instance_registries(
+        ctx, 'C03.D1', ('message',),
+        'the header-field table of a message class grows with every message '
+        'that needed the extra field: later messages repeat it')
     serial_rules(ctx)
     constructor_rules(ctx, classes)
     ctx.floor('C03.D1', 30)
